@@ -13,14 +13,17 @@ fn main() {
     vcore::panics::install(!args.flag("loud"));
     vcore::crash::arm_from_args(&args);
     let mut rep = Report::new(&prop.to_uppercase(), args.seed());
-    match prop.as_str() {
-        "c03" => c03::run(&args, &mut rep),
-        "c05" => c05::run(&args, &mut rep),
-        "c18" => c18::run(&args, &mut rep),
-        other => {
-            eprintln!("unknown property {other}");
-            std::process::exit(2);
+    // a panic that escapes the monitor's own guards (e.g. out of a Drop of a library type) still yields a fragment
+    vcore::guarded(&mut rep, &args, |rep| {
+        match prop.as_str() {
+            "c03" => c03::run(&args, rep),
+            "c05" => c05::run(&args, rep),
+            "c18" => c18::run(&args, rep),
+            other => {
+                eprintln!("unknown property {other}");
+                std::process::exit(2);
+            }
         }
-    }
+    });
     rep.finish(args.get("out"));
 }
